@@ -329,11 +329,14 @@ def harness_build(debug=False, timeout=1500):
     return rc == 0, out
 
 
-def harness(args, timeout=600, debug=False, stdin=None):
-    """run the harness; returns (rc, parsed-json-or-None, raw stdout, stderr)"""
+def harness(args, timeout=600, debug=False, stdin=None, trace=False):
+    """run the harness; returns (rc, parsed-json-or-None, raw stdout, stderr).  trace: the crate's log lines are
+    formatted (a logger at Trace level), so that code inside their arguments runs"""
     binp = HARNESS_BIN_DEBUG if debug else HARNESS_BIN
     e = dict(os.environ)
     e["RUST_BACKTRACE"] = "0"
+    if trace:
+        e["VERIF_TRACE"] = "1"
     try:
         p = subprocess.run([binp] + [str(a) for a in args], stdout=subprocess.PIPE, stderr=subprocess.PIPE,
                            timeout=timeout, universal_newlines=True, errors="replace", env=e, input=stdin)
@@ -535,6 +538,51 @@ def source_fingerprints():
     return out
 
 
+def _literals_of(txt):
+    """integer magnitudes written in a source text: decimal / hex literals, `1 << k`, `2.pow(k)`"""
+    vals = set()
+    for m in re.finditer(r"(?<![\w.])(0x[0-9a-fA-F_]+|\d[\d_]*)(?:_?(?:u|i)(?:8|16|32|64|128|size))?(?![\w.])", txt):
+        t = m.group(1).replace("_", "")
+        try:
+            vals.add(int(t, 16) if t.startswith("0x") else int(t))
+        except ValueError:
+            pass
+    for m in re.finditer(r"\b1(?:_?(?:u|i)(?:8|16|32|64|128|size))?\s*<<\s*(\d+)", txt):
+        vals.add(1 << int(m.group(1)))
+    for m in re.finditer(r"\b2(?:_?(?:u|i)(?:8|16|32|64|128|size))?\s*\.pow\(\s*(\d+)\s*\)", txt):
+        vals.add(2 ** int(m.group(1)))
+    # a narrow integer type used as a type (`: u16`, `as u8`, `<u16>`) wraps at its width
+    for m in re.finditer(r"(?<![\w.])(u|i)(8|16)(?![\w.])", txt):
+        vals.add(1 << (int(m.group(2)) - (1 if m.group(1) == "i" else 0)))
+    return vals
+
+
+def source_literals():
+    from rustexpr import strip_comments
+    out = {}
+    for dp, _, fs in os.walk(os.path.join(REPO, "src")):
+        for f in fs:
+            if f.endswith(".rs"):
+                path = os.path.join(dp, f)
+                txt = strip_comments(open(path, errors="replace").read()).split("#[cfg(test)]\nmod tests")[0]
+                out[os.path.relpath(path, REPO)] = sorted(v for v in _literals_of(txt) if 3 <= v <= (1 << 27))
+    return out
+
+
+def new_literals(files):
+    """integer magnitudes (3 .. 2^27) that appear in the given changed source files but not in their fingerprinted
+    version: thresholds a change may have introduced; the generators add sizes around them"""
+    p = os.path.join(VERIF, "fingerprints.json")
+    if not os.path.exists(p):
+        return []
+    ref = json.load(open(p)).get("literals", {})
+    now = source_literals()
+    out = set()
+    for f in files:
+        out |= set(now.get(f, [])) - set(ref.get(f, []))
+    return sorted(out)[:10]
+
+
 def changed_sources():
     """source files whose text (comments and whitespace aside) differs from the recorded fingerprint"""
     p = os.path.join(VERIF, "fingerprints.json")
@@ -546,8 +594,36 @@ def changed_sources():
 
 
 def property_files(pid):
+    """the source files a property is anchored in, closed under `use crate::...` imports (a sketcher built on the lazy
+    shuffle or the max tracker depends on those files too)"""
+    files = []
     for line in open(os.path.join(VERIF, "properties.jsonl")):
         rec = json.loads(line)
         if rec["id"] == pid:
-            return rec.get("anchors", {}).get("files", [])
-    return []
+            files = list(rec.get("anchors", {}).get("files", []))
+    seen = set(files)
+    todo = list(files)
+    while todo:
+        f = todo.pop()
+        path = os.path.join(REPO, f)
+        if not os.path.exists(path):
+            continue
+        txt = open(path, errors="replace").read()
+        for m in re.finditer(r"\buse\s+crate::((?:\w+::)*)(\w+|\{[^}]*\}|\*)", txt):
+            mods = [x for x in m.group(1).split("::") if x]
+            cands = []
+            if mods:
+                cands.append("src/" + "/".join(mods) + ".rs")
+                cands.append("src/" + "/".join(mods[:1]) + ".rs")
+                tail = m.group(2)
+                if re.match(r"^\w+$", tail):
+                    cands.append("src/" + "/".join(mods + [tail]) + ".rs")
+            else:
+                tail = m.group(2)
+                if re.match(r"^\w+$", tail):
+                    cands.append("src/" + tail + ".rs")
+            for c in cands:
+                if c not in seen and os.path.exists(os.path.join(REPO, c)):
+                    seen.add(c)
+                    todo.append(c)
+    return sorted(seen)
